@@ -110,14 +110,15 @@ def spec_check(scn: Scenario, obs: Obs):
     """Independent oracle, written from the English statement of C06, on the implementation's
     observation only. Returns a list of failure strings (empty = property holds on this schedule)."""
     fails = []
+    tail = []
     for e in obs.errors:
-        fails.append(f"harness/sender error: {e}")
+        tail.append(f"harness/sender error: {e}")
     for actor, uid, ret, exc in obs.sends:
         if exc is not None:
-            fails.append(f"send of {uid} by sender {actor} raised {exc}")
+            tail.append(f"send of {uid} by sender {actor} raised {exc}")
     for actor, parent, uid, ret, exc in obs.nested:
         if exc is not None:
-            fails.append(f"nested send of {uid} (from callbacks of {parent}) raised {exc}")
+            tail.append(f"nested send of {uid} (from callbacks of {parent}) raised {exc}")
 
     # (1) callback sequences of different events never overlap:
     #     along the global mark sequence the uid changes only at block boundaries, a uid never comes
@@ -192,9 +193,9 @@ def spec_check(scn: Scenario, obs: Obs):
         ret, st = obs.probe
         if ret != PROBE_UID:
             fails.append(f"follow-up send returned {ret!r}: a stale result of an event left behind (expected {PROBE_UID})")
-    # dedupe, keep order
+    # dedupe, keep order (clauses of the property first, then escaped exceptions)
     out = []
-    for f in fails:
+    for f in fails + tail:
         if f not in out:
             out.append(f)
     return out
